@@ -16,7 +16,6 @@ import (
 	"go/ast"
 	"go/token"
 	"go/types"
-	"os"
 	"sort"
 	"strings"
 
@@ -75,7 +74,7 @@ func sharedFacts(work string, names []string) (map[string][]sharedSite, error) {
 		patterns = append(patterns, "verifscratch/mod/"+n)
 	}
 	cfg := &packages.Config{Mode: packages.NeedName | packages.NeedTypes | packages.NeedTypesInfo | packages.NeedSyntax | packages.NeedImports, Dir: work,
-		Env: append(os.Environ(), "GOFLAGS=-mod=mod", "GOPROXY=off", "GOSUMDB=off", "GOTOOLCHAIN=local")}
+		Env: goEnv()}
 	pkgs, err := packages.Load(cfg, patterns...)
 	if err != nil {
 		return nil, err
